@@ -4,7 +4,7 @@ import lfht_common as L
 import lfhtx_common as X
 XPROGS = ['A0L0P2/A7T/L0NL0N', 'A0A3L0P7/A2A5T/TL0NT', 'A0A3A4/L0L3TL4/Z2Z1Z0', 'U0U3U6/Z3L6L3T/Z1L0T', 'A3A6L3X/Z2Z0/L6TL3', 'A0U2L0P7/L0NL0/L0XTL0X', 'A3A5L3X/U8L5NT/Z2A9Z1', 'U0R2R7/L0L0L0T/L0XTU1']
 XCONFS = [('2', '8', 'o'), ('4', '8', 'o'), ('1', '8', 'c'), ('2', '8', 'm'), ('8', '8', 'o')]
-PROGS = ['A0A1/A5A3/L0XL1XL5XL3X', 'A0L0X/A1L1X/L0L1L0', 'A0A1A5/L1XL0X/L0XL1X', 'A4A3/A0L4X/L3XL0X', 'A0A1/L0XL0/L0XA5']
+PROGS = ['A0A1L0P2/L1XL0X/L0P7L2X', 'A0A1/A5A3/L0XL1XL5XL3X', 'A0L0X/A1L1X/L0L1L0', 'A0A1A5/L1XL0X/L0XL1X', 'A4A3/A0L4X/L3XL0X', 'A0A1/L0XL0/L0XA5']
 def run(ctx):
     ctx.cov['source_hash'] = source_hash(L.FILES)
     prove(ctx)
